@@ -33,6 +33,10 @@ def gen(rng, i, tier):
 
 def gen_(rng, i, tier):
     base = c14.gen(rng, i, "quick")
+    if rng.random() < 0.08:           # degenerate models: only an offset, or nothing at all
+        off = G.coef(rng)
+        base["init"] = G.jraw([((), off)] if rng.random() < 0.8 else [])
+        base["edits"] = []
     kind = base["kind"]
     edits = [e for e in base["edits"] if e["e"] in ("set", "aug", "update", "refresh")][:4]
     calls = []
@@ -88,10 +92,10 @@ def run_impl(case):
     if not (info2 == info and type(M2) is type(M)):
         checks.append("get_info(create_from_info(get_info(M))) != get_info(M): %r vs %r" % (ninfo(info2), ninfo(info)))
     # ---- independence of everything the model hands out --------------------------------------------
-    ref = C.snapshot(M)
+    ref = C.snapshot_unordered(M)
 
     def still(what):
-        if C.snapshot(M) != ref:
+        if C.snapshot_unordered(M) != ref:
             checks.append("mutating %s changed the model" % what)
     c = M.copy()
     c[(C.POOL[0],) if not case["kind"].endswith("Matrix") else (0,)] += 5
@@ -116,6 +120,30 @@ def run_impl(case):
             cs[r].append({})
         cs['zz'] = []
         still("constraints")
+    # ---- the same from the other side: the copies do not follow later changes of the model, constraint records included
+    if hasattr(M, "constraints"):
+        a, b = M.copy(), type(M)(M)
+        refs = (C.snapshot(a), C.snapshot(b))
+        lab = C.POOL[3]
+        for r in list(M.constraints) or ["eq"]:
+            getattr(a, "add_constraint_%s_zero" % r)({(lab,): 1, (): -1 if r in ("eq", "le", "ge") else 0}, lam=1, suppress_warnings=True)
+            still("a constraint (%s) added to copy()" % r)
+        refa = C.snapshot(a)
+        for r in list(M.constraints) or ["eq"]:
+            getattr(b, "add_constraint_%s_zero" % r)({(lab,): 1, (): -1 if r in ("eq", "le", "ge") else 0}, lam=1, suppress_warnings=True)
+            still("a constraint (%s) added to the copy constructor's result" % r)
+        if C.snapshot(a) != refa:
+            checks.append("two copies of one model share state: changing one changed the other")
+        s = M + M
+        rs = C.snapshot(M)
+        for r in list(M.constraints):
+            getattr(s, "add_constraint_%s_zero" % r)({(lab,): 1, (): -1 if r in ("eq", "le", "ge") else 0}, lam=1, suppress_warnings=True)
+        still("a constraint added to M + M")
+    # ---- library functions leave their arguments alone (the purity monitor compares deep snapshots before / after)
+    try:
+        menu_calls(M, case)
+    except C.PurityError as ex:
+        checks.append(str(ex))
     info['terms'][()] = 12345
     if info.get('mapping') is not None:
         info['mapping']['mutant'] = 99
@@ -127,6 +155,47 @@ def run_impl(case):
     still("the round-trip copy")
     out["checks"] = checks
     return out
+
+
+def menu_calls(M, case):
+    """solvers, converters, extrema, value functions, normalisation, substitution, annealers on the model and on a plain
+    dict with the same items; every call goes through the purity monitor"""
+    import qubovert as qv
+    import warnings
+    spin = case["kind"] in ("QUSO", "PUSO", "PCSO", "QUSOMatrix", "PUSOMatrix")
+    quad = case["kind"] in ("QUBO", "QUSO", "QUBOMatrix", "QUSOMatrix")
+    small = len({i for k in M for i in k}) <= 6
+    u = qv.utils
+    pc = lambda fn, *a, **k: C.pure_call_u(fn, *a, _tolerate=(ValueError, KeyError, TypeError, ZeroDivisionError), **k)
+    D = dict(M)
+    for X in (M, D):
+        if X is D and quad is False and any(len(set(k)) != len(k) for k in D):
+            continue
+        fam = ("quso" if quad else "puso") if spin else ("qubo" if quad else "pubo")
+        if small:
+            for allsol in (False, True):
+                pc(getattr(u, "solve_%s_bruteforce" % fam), X, allsol)
+        conv = {"pubo": u.pubo_to_puso, "puso": u.puso_to_pubo, "qubo": u.qubo_to_quso, "quso": u.quso_to_qubo}[fam]
+        pc(conv, X)
+        pc(getattr(u, "approximate_%s_extrema" % fam), X)
+        labs = sorted({i for k in X for i in k}, key=repr)
+        x = {l: (1 if not spin else -1) for l in labs}
+        pc(getattr(u, "%s_value" % fam), x, X)
+        pc(u.normalize, X)
+        if labs:
+            pc(u.subvalue, {labs[0]: 1}, X)
+            pc(u.subgraph, X, set(labs[:1]))
+        if small:
+            with warnings.catch_warnings():
+                warnings.simplefilter("ignore")
+                pc(getattr(qv.sim, "anneal_%s" % fam), X, num_anneals=2, anneal_duration=5, seed=1)
+                pc(qv.sim.anneal_temperature_range, X, spin=spin)
+    if hasattr(M, "solve_bruteforce") and small:
+        pc(lambda m: m.solve_bruteforce(), M)
+        pc(lambda m: m.solve_bruteforce(True), M)
+    for meth in ("to_qubo", "to_quso", "to_pubo", "to_puso", "to_enumerated"):
+        if hasattr(M, meth) and len(M) <= 12:
+            pc(lambda m: getattr(m, meth)(), M)
 
 
 def literal(case, out):
